@@ -21,7 +21,8 @@ ASSUMPTIONS = [
     "of a hash-ordered candidate string is observable; larger alphabets keep the abstract-member stub",
     "schemas are concrete members of a catalogue (the schema quantifier is enumerated); RNG outcomes and set orders are symbolic",
     "excluded by the property: unfixed uuid4 / datetime / date",
-    "(b) the unrelated fake() in between is a solver-chosen member of a 7-schema menu run on a fixed tape",
+    "(b) the unrelated operation in between is a solver-chosen member of an 8-entry menu (7 schemas to fake() on a fixed tape, "
+    "or the construction of a RegexGenerator with its own alphabets plus a set_seed call)",
     "(c) the real Random().set_seed path is exercised only in the replay",
 ]
 BOUNDS = "catalogue of 30 schema expressions; tape 6 ints / 3 chars; 3 order decisions per run; 8 interpreters in replay"
@@ -41,13 +42,18 @@ with notrace():
     reset_module_state()
 S = {expr}
 OTHER = pick(({others}), oi)
+from d42.generation import Random as _Random, RegexGenerator as _RegexGenerator
 REGEX_GEN._alphabet["letters"], saved = SMALL_LETTERS, REGEX_GEN._alphabet["letters"]
 try:
-    with gen_env((d0, d1, d2, d3, d4, d5), (c0, c1, c2), (), small=False, index_small=True) as t:
+    with gen_env((d0, d1, d2, d3, d4, d5), (c0, c1, c2), (u0,), small=False, index_small=True) as t:
         a = fake(S)
     with gen_env((3, 3, 3, 3, 3, 3), (), (), small=False, first_char=True) as t2:
-        fake(OTHER)
-    with gen_env((d0, d1, d2, d3, d4, d5), (c0, c1, c2), (), small=False, index_small=True) as t:
+        if OTHER is None:      # an unrelated object construction with its own settings
+            _RegexGenerator(_Random(), alphabet={{"digits": "7", "letters": "z", "word": "_"}}, max_repeat=99)
+            _Random().set_seed(12345)
+        else:
+            fake(OTHER)
+    with gen_env((d0, d1, d2, d3, d4, d5), (c0, c1, c2), (u0,), small=False, index_small=True) as t:
         b = fake(S)
 finally:
     REGEX_GEN._alphabet["letters"] = saved
@@ -68,10 +74,10 @@ HASH_EXPRS = [
     'fake(from_native({"a": 1, "b": [1, 2]}))', 'fake(schema.dict({"o": schema.dict(rollout({"o.a": schema.int.min(0).max(9), "o.b": schema.int.min(0).max(9)})["o"])}))',
     '[fake(schema.int.min(0).max(9)), fake(schema.bool), fake(schema.str.len(1))]', 'fake(schema.bytes)',
 ]
-STATE_EXPRS = ['schema.str.regex("a*")', 'schema.str.regex("b+c")', 'schema.str.regex("[a-c]{1,}")', 'schema.str.len(..., 2)',
+STATE_EXPRS = ['schema.str.regex("\\\\d\\\\w.")', 'schema.float.min(0.11).max(0.19).precision(1)', 'schema.str.regex("a*")', 'schema.str.regex("b+c")', 'schema.str.regex("[a-c]{1,}")', 'schema.str.len(..., 2)',
                'schema.list(schema.int.min(0).max(9)).len(..., 2)', 'schema.dict({"a": schema.int.min(0).max(9), "b": schema.bool})',
                'schema.any(schema.int.min(0).max(3), schema.none)', 'schema.int', 'schema.bytes']
-OTHERS = ['schema.str.regex("a{40,}")', 'schema.str.regex("[0-9]{33,}x*")', 'schema.list(schema.int).len(3)', 'schema.str.len(5)',
+OTHERS = ['None', 'schema.str.regex("a{40,}")', 'schema.str.regex("[0-9]{33,}x*")', 'schema.list(schema.int).len(3)', 'schema.str.len(5)',
           'schema.dict({"a": schema.any(schema.int, schema.str)})', 'schema.int.min(5)', 'schema.str.regex("(a|b)+")']
 
 
@@ -102,8 +108,8 @@ def harnesses(tier, seed, active_kf=()):
                       covers=("compared",), pre=TPRE, timeout=90, functions=FUNCS, bounds=BOUNDS, meta={"expr": ex},
                       kf_applied=()))
     for i, ex in enumerate(STATE_EXPRS):
-        out.append(mk("C17.state.%02d" % i, TAPE + ", oi: int",
-                      STATE.format(expr=ex, others=", ".join(OTHERS)), covers=("compared",), pre=TPRE + ["0 <= oi <= %d" % (len(OTHERS) - 1)],
+        out.append(mk("C17.state.%02d" % i, TAPE + ", u0: float, oi: int",
+                      STATE.format(expr=ex, others=", ".join(OTHERS)), covers=("compared",), pre=TPRE + ["0 <= oi <= %d" % (len(OTHERS) - 1), "u0 == u0"],
                       timeout=120, functions=FUNCS, bounds=BOUNDS, meta={"expr": ex}))
     return out
 
